@@ -3177,7 +3177,7 @@ public:
     {
         if(is_constant_evaluated())
         {
-            return string_length(data());
+            return std::find(begin(), end(), '\0') - begin();
         }
         else
         {
